@@ -5,7 +5,7 @@ RULE = ("each case runs a structure (repository proteins, cut-outs, chimeras) on
         "once per edit of one kind: insertion of ignorable hetero residues (HOH H2O SO4 PO4 PEG EPE "
         "TRS) anywhere incl. inside residues and before the first atom; insertion of hydrogens (the "
         "program's own, or random ones named by the PDB convention) without -k; insertion of "
-        "REMARK/ANISOU/CONECT/SEQRES/HETNAM/SIGATM/MASTER/END/blank records anywhere; rewriting the "
+        "REMARK/ANISOU/CONECT/SEQRES/HETNAM/SIGATM/MASTER/END/blank records anywhere; DOS line endings and lines padded to 80 columns; rewriting the "
         "serial, occupancy, B-factor, segment, element and charge columns or truncating lines after "
         "column 54; --protonate-all; -k with the program's own hydrogens written back (amino-acid "
         "structures only); 35 % of the cut-outs carry 1-2 ligands of the fragment library next to an "
@@ -19,7 +19,7 @@ ASSUMPTIONS = ["-k feedback is judged only when no written-back hydrogen lies wi
 TIMEOUT = {"quick": 1800, "thorough": 10800}
 EDITS = ("ignorable", "hydrogens-own", "hydrogens-random", "records", "columns", "truncate",
          "protonate-all", "keep-protons-feedback", "hydrogens-random+protonate-all", "ignorable+records+columns",
-         "keep-protons-feedback-all")
+         "keep-protons-feedback-all", "line-endings")
 IGNORABLE = ("HOH", "H2O", "SO4", "PO4", "PEG", "EPE", "TRS")
 
 
@@ -238,6 +238,19 @@ def run_case(case, tier):
         new, t2, a2 = edit_records(new, rng)
         new, t3, a3 = edit_columns(new, rng)
         touched, added = t1 + t2 + t3, a1 + a2 + a3
+    elif edit == "line-endings":
+        # the same records with DOS line endings, lines padded with blanks to 80 columns, or both
+        new, touched = recs, nlines
+        style = rng.choice(("crlf", "padded", "padded+crlf", "trailing-blanks"))
+        classes.append("line-endings:" + style)
+
+        def transform(t, style=style):
+            lines_ = t.split("\n")
+            if "padded" in style:
+                lines_ = [l.ljust(80) if l else l for l in lines_]
+            if style == "trailing-blanks":
+                lines_ = [l + "   " if l else l for l in lines_]
+            return ("\r\n" if "crlf" in style else "\n").join(lines_)
     elif edit == "protonate-all":
         new, opts, exact_text, tol = recs, ["--protonate-all"], False, 1e-7
         touched = nlines
@@ -263,7 +276,10 @@ def run_case(case, tier):
         nc = hydrogen_contacts(new)
         if nc:
             inconclusive = "%d written-back hydrogens within 1.5 A of a second heavy atom" % nc
-    edited = obs.run_single(pdbio.dump(new), opts)
+    edited_text = pdbio.dump(new)
+    if edit == "line-endings":
+        edited_text = transform(edited_text)
+    edited = obs.run_single(edited_text, opts)
     counts["pipeline_runs"] += 1
     counts["comparisons"] = 1
     counts["edit:" + edit] = 1
